@@ -8,7 +8,9 @@ package main
 //       side expects every field except SignData covered.
 //   (B) `vm` ops: consensus.Validator.VerifyMiner on synthetic headers / deputy tables (slot check,
 //       the "mineTime should be milliseconds" panic, division by a zero loop time).
-//   (C) panic probe: an empty block with Header.Time = 1, signed by a deputy, through InsertBlock.
+//   (C) regression probe for fix 26f228d: an empty block with Header.Time = 1 (and 9999999), signed by a
+//       deputy, through InsertBlock. Before that commit GetCorrectMiner panicked ("mineTime should be
+//       milliseconds", oracle class c02/panic/mine-time-not-ms); now the block is an ordinary rejection.
 //   (D) mutation campaign on a full engine: every single-field mutation of header and body (and
 //       random pairs) x {not re-signed, in-turn deputy, wrong-turn deputy, wrong-turn deputy that also
 //       names itself as miner, outsider key}; verdict of the real InsertBlock + class of the real
@@ -207,7 +209,7 @@ func c02VerifyMinerSweep(c *Ctx) {
 		var ts uint32
 		switch c.Rnd.Intn(10) {
 		case 0:
-			ts = uint32(c.Rnd.Intn(10000000)) // < 1e7 s: "mineTime should be milliseconds"
+			ts = uint32(c.Rnd.Intn(10000000)) // < 1e7 s: ErrSmallerMineTime (a panic before fix 26f228d)
 		case 1:
 			ts = 10000000 + uint32(c.Rnd.Intn(3))
 		case 2:
@@ -776,7 +778,7 @@ func c02PanicProbe(c *Ctx) {
 		s.runCase(m, tc.label, false, nil)
 		c.Count("probe")
 	}
-	// any deputy, not only the one in turn, can make every validating node panic
+	// before fix 26f228d any deputy, not only the one in turn, could make every validating node panic
 	for i, k := range s.w.DeputyKeys {
 		m := CloneBlock(blk)
 		m.Header.Time = 1
